@@ -459,7 +459,11 @@ def write_evidence(run, coq, path):
 def replay(prop, path):
     d = json.load(open(path))
     if "script" not in d:
-        print(json.dumps(d, indent=1)[:3000]); return 1
+        # proof / build / tool / arduino / thread findings: re-run the check itself and show the recorded finding
+        print(json.dumps({k: (v if not isinstance(v, (list, str)) or len(v) < 1200 else str(v)[:1200] + "...") for k, v in d.items()}, indent=1))
+        if d.get("kind") == "tool" and "argv" in d:
+            print("re-run by hand: build /repo (make), then examples/%s %s on the input whose hex is in input_hex" % (d["tool"], " ".join(d["argv"])))
+        return 1
     run = Run(prop, "quick", 0)
     try:
         run.model = C.build_model()
